@@ -51,8 +51,10 @@ vector<string> ApplicationTools::matchingParameters(const string& pattern, const
       }
       pos1 = pos2 + g.length();
     }
+    // Without any '*' the pattern is the name itself; otherwise the last piece must end the name.
     if (flag &&
-        ((g.length() == 0) || (pos1 == parn.length()) || (parn.rfind(g) == parn.length() - g.length())))
+        (stj.getTokens().size() == 1 ? parn == pattern :
+        ((g.length() == 0) || (pos1 == parn.length()) || (parn.rfind(g) == parn.length() - g.length()))))
       retv.push_back(parn);
   }
 
@@ -85,8 +87,10 @@ vector<string> ApplicationTools::matchingParameters(const string& pattern, vecto
       }
       pos1 = pos2 + g.length();
     }
+    // Without any '*' the pattern is the name itself; otherwise the last piece must end the name.
     if (flag &&
-        ((g.length() == 0) || (pos1 == parn.length()) || (parn.rfind(g) == parn.length() - g.length())))
+        (stj.getTokens().size() == 1 ? parn == pattern :
+        ((g.length() == 0) || (pos1 == parn.length()) || (parn.rfind(g) == parn.length() - g.length()))))
       retv.push_back(parn);
   }
 
